@@ -37,6 +37,39 @@ def strip_comments(text):
     return "\n".join(out)
 
 
+def documented_order_violation(m, text):
+    """independent of the Coq model: condition parameters are written in byte order of their NAMES; in a non-modular model
+    so are the relations of a type and the conditions (the documented order). Returns a description or None."""
+    import re
+    for line in text.split("\n"):
+        mm = re.match(r"^condition ([^(]*)\((.*)\) \{", line)
+        if mm:
+            names = [p.split(":")[0].strip().encode() for p in mm.group(2).split(", ")]
+            if names != sorted(names):
+                return "the parameters of condition %s are written as %s, not in the order of their names" % (mm.group(1), [n.decode() for n in names])
+    modular = any(t[2] and t[2][0][1] for t in m[1]) or any(c[3] for _, c in m[2])
+    if modular:
+        return None
+    cur = None
+    rels = {}
+    conds = []
+    for line in text.split("\n"):
+        line = line.split(" #")[0]
+        if line.startswith("type "):
+            cur = line[5:]
+            rels[cur] = []
+        elif line.startswith("    define ") and cur is not None:
+            rels[cur].append(line[11:].split(":")[0].encode())
+        elif line.startswith("condition "):
+            conds.append(line[10:].split("(")[0].encode())
+    for t, rs in rels.items():
+        if rs != sorted(rs):
+            return "the relations of type %s are written as %s, not in the order of their names" % (t, [r.decode() for r in rs])
+    if conds != sorted(conds):
+        return "the conditions are written as %s, not in the order of their names" % [c.decode() for c in conds]
+    return None
+
+
 def no_newline_names(m):
     def ok(s):
         return 10 not in s and 13 not in s
@@ -81,6 +114,12 @@ def run(ctx):
             modular = any(t[2] and t[2][0][1] for t in m[1])
             if not src:
                 ctx.note_case(json.dumps(m), modular and len(m[1]) > 1)
+            if x[0] == "ok":
+                why = documented_order_violation(m, x[1])
+                ctx.count("documented_order_checked")
+                if why:
+                    ctx.violation("not-in-documented-order", {"model": m, "src": src, "why": why, "a": x[1]})
+                    continue
             if x[:2] != y[:2]:
                 ctx.violation("depends-on-input-order", {"model": m, "permuted": perms[k], "src": src,
                                                          "why": "permuting maps / type definitions of the model changes the DSL output",
